@@ -558,3 +558,79 @@ def truthiness_uses(fdef, is_value_source):
             seen.add(id(n))
             res.append((n, d))
     return res
+
+
+def interval_of_name_at(stmts, var, target, value_bounds):
+    """Path-sensitive interval analysis (integers, constants only): the set of (lo, hi) intervals the local `var` can have when the AST node
+    `target` (inside `stmts`) is evaluated; lo / hi are ints or None (unbounded).  Assignments `var = E` take value_bounds(E) -> (lo, hi);
+    comparisons of `var` with an expression whose value_bounds are a single constant refine the interval on the branch taken
+    (x < c, c < x, x <= c, c <= x, ==).  Everything else leaves the interval unchanged.  Returns a sorted list of distinct intervals
+    (one per feasible path class)."""
+    from .cfg import CFG
+    cfg = CFG(stmts, exceptions=False)
+    stop = set(cfg_nodes_containing(cfg, target))
+    found = set()
+    INF = None
+
+    def refine(iv, test, taken):
+        lo, hi = iv
+        if isinstance(test, ast.BoolOp) and isinstance(test.op, ast.And) and taken:
+            for v in test.values:
+                lo, hi = refine((lo, hi), v, True)
+            return (lo, hi)
+        if isinstance(test, ast.BoolOp) and isinstance(test.op, ast.Or) and not taken:
+            for v in test.values:
+                lo, hi = refine((lo, hi), v, False)
+            return (lo, hi)
+        if isinstance(test, ast.UnaryOp) and isinstance(test.op, ast.Not):
+            return refine(iv, test.operand, not taken)
+        if not (isinstance(test, ast.Compare) and len(test.ops) == 1):
+            return iv
+        l, r, op = test.left, test.comparators[0], test.ops[0]
+        if isinstance(l, ast.Name) and l.id == var:
+            c = value_bounds(r)
+            side = 'left'
+        elif isinstance(r, ast.Name) and r.id == var:
+            c = value_bounds(l)
+            side = 'right'
+        else:
+            return iv
+        if c[0] is None or c[0] != c[1]:
+            return iv
+        c = c[0]
+        # normalise to  var OP c
+        kind = type(op)
+        if side == 'right':
+            kind = {ast.Lt: ast.Gt, ast.LtE: ast.GtE, ast.Gt: ast.Lt, ast.GtE: ast.LtE}.get(kind, kind)
+        if not taken:
+            kind = {ast.Lt: ast.GtE, ast.LtE: ast.Gt, ast.Gt: ast.LtE, ast.GtE: ast.Lt, ast.Eq: ast.NotEq, ast.NotEq: ast.Eq}.get(kind, kind)
+        mx = lambda a, b: b if a is None else a if b is None else max(a, b)
+        mn = lambda a, b: b if a is None else a if b is None else min(a, b)
+        if kind is ast.Lt:
+            hi = mn(hi, c - 1)
+        elif kind is ast.LtE:
+            hi = mn(hi, c)
+        elif kind is ast.Gt:
+            lo = mx(lo, c + 1)
+        elif kind is ast.GtE:
+            lo = mx(lo, c)
+        elif kind is ast.Eq:
+            lo, hi = mx(lo, c), mn(hi, c)
+        return (lo, hi)
+
+    def step(state, node, label):
+        iv = state
+        if node.id in stop:
+            found.add(iv)
+            return None
+        if node.kind == 'test' and label in ('true', 'false') and isinstance(node.ast, (ast.If, ast.While)):
+            iv = refine(iv, node.ast.test, label == 'true')
+            if iv[0] is not None and iv[1] is not None and iv[0] > iv[1]:
+                return None        # infeasible branch
+        if node.kind == 'stmt' and isinstance(node.ast, ast.Assign) and any(isinstance(t, ast.Name) and t.id == var for t in node.ast.targets):
+            iv = tuple(value_bounds(node.ast.value))
+        elif node.kind == 'stmt' and isinstance(node.ast, ast.AugAssign) and isinstance(node.ast.target, ast.Name) and node.ast.target.id == var:
+            iv = (INF, INF)
+        return iv
+    cfg.paths(state0=(INF, INF), step=step, max_paths=20000)
+    return sorted(found, key=str)
